@@ -170,28 +170,87 @@ def dual_helpers_rule(ctx, rule="ROLE-dual-helpers"):
         ctx.ok("ROLE-default-jvp", "adev._discrete_zero_tangent")
     else:
         ctx.bad("ROLE-default-jvp", "adev._discrete_zero_tangent", "forwards to _zero_tangent_like", f"found {short(s.ret, ev)}", func_loc(ctx, AD + "_discrete_zero_tangent"))
-    # canonicalisation table: Zero stays, float0 -> Zero.from_primal_value(primal), anything else unchanged
+    # canonicalisation table: Zero stays, float0 -> Zero.from_primal_value(primal), anything else unchanged.  The model enumerates the
+    # well-typed (primal dtype, tangent kind) pairs of JAX's AD: an inexact primal (float32, bfloat16, complex64) carries a symbolic Zero or
+    # an ordinary tangent of its own dtype; a discrete primal (int32, bool) carries a symbolic Zero or a float0 array.  dtype queries the
+    # helper may make on either operand (result_type / .dtype / issubdtype / primal_dtype_to_tangent_dtype) are answered from NumPy's
+    # abstract dtype lattice for the modelled kind.
     s = summarize(ctx, ev, AD + "_canonicalize_tangent_for_primitive_jvp")
     P_, T_ = ("param", "primal"), ("param", "tangent")
     good = True
     detail = ""
-    for isz, isf in itertools.product([True, False], repeat=2):
+    LATTICE = {"float32": {"floating", "inexact", "number", "generic"}, "bfloat16": {"floating", "inexact", "number", "generic"},
+               "complex64": {"complexfloating", "inexact", "number", "generic"},
+               "int32": {"signedinteger", "integer", "number", "generic"}, "bool": {"bool_", "generic", "bool"}, "float0": {"generic", "void"}}
+
+    class DT(Atom):
+        def __init__(self, kind):
+            super().__init__("dtype", kind)
+            self.kind = kind
+
+    class Val(Atom):
+        def __init__(self, name, kind):
+            super().__init__(name, kind)
+            self.model_attrs = {"dtype": DT(kind)}
+
+    def dtype_of(x):
+        if isinstance(x, DT):
+            return x
+        if isinstance(x, Val):
+            return x.model_attrs["dtype"]
+        raise Unknown(f"dtype of {x!r}")
+
+    def issub(d, cls):
+        d = dtype_of(d)
+        if isinstance(cls, tuple):
+            return any(issub(d, c) for c in cls)
+        nm = cls.parts[1].rsplit(".", 1)[-1] if isinstance(cls, Opq) and cls.parts[:1] == ("name",) else None
+        if nm is None:
+            raise Unknown(f"issubdtype against {cls!r}")
+        return nm in LATTICE[d.kind] or nm == d.kind
+
+    def tangent_dtype(d):
+        d = dtype_of(d)
+        return d if "inexact" in LATTICE[d.kind] else DT("float0")
+    cases = []
+    for pk in ("float32", "bfloat16", "complex64"):
+        cases += [(pk, "zero"), (pk, "ordinary")]
+    for pk in ("int32", "bool"):
+        cases += [(pk, "zero"), (pk, "float0")]
+    for pk, tk in cases:
         m = Model(evaluator=ev)
-        pv, tv = Atom("p"), Atom("t")
+        pv = Val("p", pk)
+        tv = Val("t", pk if tk == "ordinary" else "float0") if tk != "zero" else Atom("symbolic-zero")
         m.bind(P_, pv)
         m.bind(T_, tv)
-        m.funcs[AD + "_is_ad_zero"] = lambda x, isz=isz: isz
-        m.funcs[AD + "_is_float0_tangent"] = lambda x, isf=isf: isf
+        isz, isf = tk == "zero", tk == "float0"
+        m.funcs[AD + "_is_ad_zero"] = lambda x, isz=isz, tv=tv: isz if x is tv else False
+        m.funcs[AD + "_is_float0_tangent"] = lambda x, isf=isf, tv=tv: isf if x is tv else False
         m.funcs["jax.interpreters.ad.Zero.from_primal_value"] = lambda x: Opq("Zero", x)
+        for nm in ("jax.numpy.result_type", "jax.dtypes.result_type", "numpy.result_type", "jax.numpy.dtype", "numpy.dtype", "jax.dtypes.dtype"):
+            m.funcs[nm] = lambda x, *a, **k: dtype_of(x)
+        for nm in ("jax.numpy.asarray", "jax.numpy.array", "numpy.asarray"):
+            m.funcs[nm] = lambda x, *a, **k: x
+        for nm in ("jax.numpy.issubdtype", "jax.dtypes.issubdtype", "numpy.issubdtype"):
+            m.funcs[nm] = issub
+        for nm in ("jax.dtypes.primal_dtype_to_tangent_dtype", "jax._src.dtypes.primal_dtype_to_tangent_dtype", "jax._src.core.primal_dtype_to_tangent_dtype"):
+            m.funcs[nm] = tangent_dtype
+        for nm in ("jax.numpy.iscomplexobj", "numpy.iscomplexobj"):
+            m.funcs[nm] = lambda x: dtype_of(x).kind.startswith("complex")
+        m.bind(N("jax.dtypes.float0"), DT("float0"))
+        m.bind(N("jax.numpy.float0"), DT("float0"))
         try:
             got = m.ev(s.ret)
         except Unknown as e:
             raise AnalysisError(f"adev._canonicalize_tangent_for_primitive_jvp: cannot evaluate: {e}")
-        want_v = tv if isz or not isf else Opq("Zero", pv)
+        want_v = tv if tk != "float0" else Opq("Zero", pv)
         if not _eq(got, want_v):
-            good, detail = False, f"[symbolic zero={isz}, float0={isf}] gives {got!r}, expected {want_v!r}"
+            good = False
+            detail = (f"[{pk} primal, {'symbolic Zero' if isz else ('float0' if isf else 'ordinary ' + pk)} tangent] gives {got!r}, expected {want_v!r}"
+                      + (": the tangent of an inexact (differentiable) value is discarded, so every derivative flowing through it becomes 0" if tk == "ordinary" else ""))
+            break
     if good:
-        ctx.ok("ROLE-default-jvp", "adev._canonicalize_tangent_for_primitive_jvp", "Zero stays, float0 → Zero.from_primal_value(primal), else unchanged")
+        ctx.ok("ROLE-default-jvp", "adev._canonicalize_tangent_for_primitive_jvp", f"{len(cases)} (primal dtype, tangent kind) pairs: Zero stays, float0 → Zero.from_primal_value(primal), ordinary tangents unchanged")
     else:
         ctx.bad("ROLE-default-jvp", "adev._canonicalize_tangent_for_primitive_jvp", "canonicalisation table", detail, func_loc(ctx, AD + "_canonicalize_tangent_for_primitive_jvp"))
 
